@@ -26,6 +26,12 @@
 //!   garbage-reply  the same message, but sent in answer to the client's first binary message (the
 //!            `Connect` of a local connection that the controller opens): a stream request is pending
 //!            on the connection when it dies -- the client must end at once all the same
+//!   tls-cut / tls-reset  (`wss://` URL, `--tls-skip-verify`) accept, read the TLS ClientHello, then cut the
+//!            connection without a single octet of TLS -- with a FIN (`tls-cut`: the client's TLS handshake ends
+//!            with an unexpected end of stream) or with a TCP reset (`tls-reset`, SO_LINGER 0: ECONNRESET): a
+//!            restarting server / TLS proxy, i.e. a retryable failure to establish the connection like `reset`
+//!   tls-healthy  (`wss://`) complete the TLS handshake (self-signed certificate) and the WebSocket handshake
+//!            and run a real `penguin_mux::Multiplexor` that echoes: `healthy` for the scripts over `wss://`
 //! plus a family with a port that really refuses (bound, not listening) where the
 //! attempts cannot be seen but the result and the total time can.
 //!
@@ -69,6 +75,8 @@ const HANG_EXTRA_MS: f64 = 4000.0;
 const KA_I_MS: u64 = 300;
 const KA_T_MS: u64 = 600;
 const TLS_HS_TIMEOUT_MS: u64 = 500;
+/// handshake timeout of family K (cut TLS handshakes): never meant to fire
+const TLS_CUT_HS_TIMEOUT_MS: u64 = 5000;
 /// generous deadline for things that take milliseconds
 const LONG_WAIT_MS: u64 = 20_000;
 /// how long "no new attempt although nothing local is pending" is watched before the
@@ -78,6 +86,8 @@ const QUIET_ISO_MS: u64 = 8000;
 /// family H: how long a client that reconnects after a non-retryable `InvalidFrame` is watched at most
 /// (until it has come back min(max_retry_count, 3) + 2 times or has ended)
 const GARBAGE_WATCH_MS: u64 = 2500;
+/// family K: how long the client is watched after the last cut of an open-ended script (it must still be running)
+const OPEN_END_WATCH_MS: u64 = 500;
 
 // ---------------------------------------------------------------------------------------
 // scenarios
@@ -104,6 +114,12 @@ pub enum Beh {
     Garbage,
     /// the same message in answer to the client's first binary message, i.e. while a stream request is pending
     GarbageReply,
+    /// (`wss://`) the server reads the TLS ClientHello and closes the connection (FIN) without answering
+    TlsCut,
+    /// (`wss://`) the same, but the connection is reset (SO_LINGER 0)
+    TlsReset,
+    /// (`wss://`) TLS handshake, WebSocket handshake, echoing multiplexor
+    TlsHealthy,
 }
 
 impl Beh {
@@ -122,17 +138,24 @@ impl Beh {
             Beh::CloseHold => "close-hold",
             Beh::Garbage => "garbage",
             Beh::GarbageReply => "garbage-reply",
+            Beh::TlsCut => "tls-cut",
+            Beh::TlsReset => "tls-reset",
+            Beh::TlsHealthy => "tls-healthy",
         }
     }
     fn parse(s: &str) -> Option<Self> {
-        [Beh::Reset, Beh::Stall, Beh::Http404, Beh::Close0, Beh::Close300, Beh::Drop, Beh::Mute, Beh::Healthy, Beh::Silent, Beh::TlsStall, Beh::CloseHold, Beh::Garbage, Beh::GarbageReply].into_iter().find(|b| b.name() == s)
+        [Beh::Reset, Beh::Stall, Beh::Http404, Beh::Close0, Beh::Close300, Beh::Drop, Beh::Mute, Beh::Healthy, Beh::Silent, Beh::TlsStall, Beh::CloseHold, Beh::Garbage, Beh::GarbageReply, Beh::TlsCut, Beh::TlsReset, Beh::TlsHealthy].into_iter().find(|b| b.name() == s)
     }
     /// the WebSocket handshake completes: the client "had a successful connection"
     fn connects(self) -> bool {
-        matches!(self, Beh::Close0 | Beh::Close300 | Beh::CloseHold | Beh::Drop | Beh::Mute | Beh::Healthy | Beh::Silent | Beh::Garbage | Beh::GarbageReply)
+        matches!(self, Beh::Close0 | Beh::Close300 | Beh::CloseHold | Beh::Drop | Beh::Mute | Beh::Healthy | Beh::TlsHealthy | Beh::Silent | Beh::Garbage | Beh::GarbageReply)
     }
     fn terminal(self) -> bool {
-        matches!(self, Beh::Healthy | Beh::Http404 | Beh::Garbage | Beh::GarbageReply)
+        matches!(self, Beh::Healthy | Beh::TlsHealthy | Beh::Http404 | Beh::Garbage | Beh::GarbageReply)
+    }
+    /// the server runs an echoing multiplexor on this connection: the client stays connected
+    fn healthy(self) -> bool {
+        matches!(self, Beh::Healthy | Beh::TlsHealthy)
     }
     /// the server's answer is a frame that does not parse: the connection ends with a non-retryable error
     fn garbage(self) -> bool {
@@ -153,6 +176,9 @@ impl Beh {
             Beh::Garbage => "invalid-frame-unprompted",
             // the case the family is about: the frame that does not parse answers a pending stream request
             Beh::GarbageReply => "invalid-frame",
+            Beh::TlsCut => "tls-cut",
+            Beh::TlsReset => "tls-reset",
+            Beh::TlsHealthy => "healthy",
         }
     }
 }
@@ -368,7 +394,7 @@ fn model_x(script: &[Beh], n: u32, cap_ms: u64, keepalive: bool, open_end: bool)
     for (j, b) in script.iter().enumerate() {
         let last = j + 1 == script.len();
         let step = match b {
-            Beh::Healthy => Step { k, k_unreset: ku, delay_ms: None, end: Some(End::Stays) },
+            Beh::Healthy | Beh::TlsHealthy => Step { k, k_unreset: ku, delay_ms: None, end: Some(End::Stays) },
             Beh::Http404 => Step { k, k_unreset: ku, delay_ms: None, end: Some(End::NonRetryable) },
             // the handshake completed (a successful connection), then the connection ended with an error that is
             // not retryable -- whether or not a stream request was pending on it
@@ -637,6 +663,55 @@ fn build_matrix(thorough: bool) -> (Vec<Scenario>, Bounds) {
         v.push(f(vec![ts, ts, ts, ts, ts], 0, 300_000, TLS_HS_TIMEOUT_MS, true));
         v.push(f(vec![Beh::Stall, Beh::Stall, Beh::Stall], 0, 300_000, TLS_HS_TIMEOUT_MS, false));
     }
+    // K: a `wss://` server that accepts the TCP connection, reads the TLS ClientHello and cuts the connection (FIN:
+    // `tls-cut`, reset: `tls-reset`) without answering -- a restarting server / TLS proxy. The connection "cannot be
+    // established for a retryable reason": back-off, retry limit and result are those of `reset`; the scripts that end
+    // at a healthy `wss://` server also show that the listener stayed open and that what was pending is served.
+    // (The handshake timeout is generous: it must not fire before the server has read the ClientHello and cut.)
+    let (tc, tr, th) = (Beh::TlsCut, Beh::TlsReset, Beh::TlsHealthy);
+    let kf = |script: Vec<Beh>, n: u32, cap_ms: u64, down_at: Option<usize>| {
+        let open_end = n == 0 && !script.last().is_some_and(|b| b.terminal());
+        Scenario { family: "K-tls-handshake-cut", script, n, cap_ms, down_at, wss: true, hs_ms: TLS_CUT_HS_TIMEOUT_MS, open_end, ..Scenario::plain() }
+    };
+    // max_retry_count = n: the first attempt and n retries are cut, then MaxRetryCountReached
+    v.push(kf(vec![tc; 2], 1, 300_000, None));
+    v.push(kf(vec![tc; 3], 2, 300, None));
+    v.push(kf(vec![tc; 4], 3, 300_000, None));
+    v.push(kf(vec![tr; 2], 1, 300, None));
+    v.push(kf(vec![tr; 3], 2, 300_000, None));
+    // max_retry_count = 0: never gives up -- a fourth attempt comes after three cuts, and the client goes on
+    v.push(kf(vec![tc; 4], 0, 300, None));
+    v.push(kf(vec![tr; 3], 0, 300_000, None));
+    // the server comes back: the client connects (TLS and all), the listener is still there, pending requests are served
+    v.push(kf(vec![tc, tc, th], 0, 300_000, None));
+    v.push(kf(vec![tc, tc, th], 2, 300, Some(0)));
+    v.push(kf(vec![tr, th], 1, 300, Some(0)));
+    // control: the healthy `wss://` server alone
+    v.push(kf(vec![th], 0, 300, None));
+    if thorough {
+        for x in [tc, tr] {
+            for n in [1u32, 2, 3] {
+                for cap in [300, 300_000] {
+                    v.push(kf(vec![x; n as usize + 1], n, cap, None));
+                }
+            }
+            for cap in [300, 300_000] {
+                v.push(kf(vec![x; 4], 0, cap, None));
+            }
+            for n in [0u32, 3] {
+                v.push(kf(vec![x, th], n, 300, None));
+                v.push(kf(vec![x, x, th], n, 300_000, Some(1)));
+                v.push(kf(vec![x, x, x, th], n, 300_000, Some(0)));
+            }
+        }
+        v.push(kf(vec![tc; 5], 0, 300_000, None));
+        // both ways of cutting in one history
+        v.push(kf(vec![tc, tr, th], 0, 300, Some(0)));
+        v.push(kf(vec![tr, tc, tr], 2, 300_000, None));
+        // ... and mixed with the handshake that is never answered (family F)
+        v.push(Scenario { hs_ms: 800, ..kf(vec![ts, tc, tc], 2, 300_000, None) });
+        v.push(Scenario { hs_ms: 800, ..kf(vec![tc, ts, tc], 0, 300_000, None) });
+    }
     for sc in &v {
         if sc.kind == Kind::Script {
             assert!(sc.steps().is_some(), "matrix contains an incomplete history: {}", sc.short());
@@ -784,7 +859,7 @@ impl Exec {
                 "accept_ms": r1(a.accept_ms), "played": a.beh.map_or("(beyond the script: stalled)".to_string(), |b| if a.beyond { format!("{} (beyond the script: played again)", b.name()) } else { b.name().to_string() }),
                 "handshake_done_ms": a.hs_done_ms.map(r1), "handshake_error": a.hs_err,
                 "server_action_ms": a.act_before_ms.map(r1), "first_frame_ms": a.first_bin_ms.map(r1), "peer_end_ms": a.peer_end_ms.map(r1),
-                "pongs_sent": a.pongs, "last_pong_ms": a.pong_after_ms.map(r1), "went_silent_ms": a.silent_ms.map(r1), "first_byte_from_client": a.first_byte.map(|b| format!("0x{b:02x}")),
+                "pongs_sent": a.pongs, "last_pong_ms": a.pong_after_ms.map(r1), "went_silent_ms": a.silent_ms.map(r1), "first_byte_from_client": a.first_byte.map(|b| format!("0x{b:02x}")), "octets_of_first_tls_record_read_before_the_cut": a.hello_len,
             })).collect::<Vec<_>>(),
             "waited_in_vain": self.hung.as_ref().map(|h| json!({"for": h.what, "after_attempt": h.after_attempt, "played": h.beh.name(), "due_by_ms": r1(h.latest_due_ms), "waited_until_ms": r1(h.waited_until_ms)})),
             "streams_at_healthy_server": self.streams.iter().map(|s| json!({"attempt": s.attempt, "target": format!("{}:{}", s.host, s.port)})).collect::<Vec<_>>(),
@@ -959,7 +1034,7 @@ async fn exec_script(sc: &Scenario, iso: bool) -> Exec {
             }
         }
         match b {
-            Beh::Reset | Beh::Http404 | Beh::Close0 | Beh::Close300 | Beh::CloseHold | Beh::Drop => {
+            Beh::Reset | Beh::Http404 | Beh::Close0 | Beh::Close300 | Beh::CloseHold | Beh::Drop | Beh::TlsCut | Beh::TlsReset => {
                 if sh.wait(LONG_WAIT_MS, |l| l.attempts[j].act_after_ms).await.is_none() {
                     ex.machinery = Some(format!("the fake server never played {} on attempt {j}", b.name()));
                     break;
@@ -981,7 +1056,7 @@ async fn exec_script(sc: &Scenario, iso: bool) -> Exec {
             }
         }
         match b {
-            Beh::Reset | Beh::Http404 | Beh::Close0 | Beh::Close300 | Beh::CloseHold | Beh::Drop => {}
+            Beh::Reset | Beh::Http404 | Beh::Close0 | Beh::Close300 | Beh::CloseHold | Beh::Drop | Beh::TlsCut | Beh::TlsReset => {}
             Beh::Mute => {
                 if ctl.locals.is_empty() {
                     ctl.open("timeout");
@@ -1043,7 +1118,7 @@ async fn exec_script(sc: &Scenario, iso: bool) -> Exec {
                     break;
                 }
             },
-            Beh::Healthy => ctl.verify_locals().await,
+            Beh::Healthy | Beh::TlsHealthy => ctl.verify_locals().await,
         }
         if sc.down_at == Some(j) && !b.terminal() && !(b == Beh::Mute) {
             ctl.open("down");
@@ -1080,7 +1155,14 @@ async fn exec_script(sc: &Scenario, iso: bool) -> Exec {
                 }
                 ex.completed = true;
             }
-            Some(End::Open) => ex.completed = true,
+            Some(End::Open) => {
+                if matches!(b, Beh::TlsCut | Beh::TlsReset) {
+                    // the client notices the cut a moment after the server made it: a client that ends on it
+                    // (instead of retrying) has ended well within this time
+                    sh.wait(OPEN_END_WATCH_MS, |l| l.client_end.is_some().then_some(())).await;
+                }
+                ex.completed = true;
+            }
             None => {}
         }
     }
@@ -1286,7 +1368,7 @@ fn judge_script(ex: &mut Exec, steps: &[Step]) {
     if ex.completed && seen == len {
         if let (Some(c), Some(a)) = (&end, att.last()) {
             let up = match sc.script[len - 1] {
-                Beh::Reset | Beh::Http404 | Beh::Garbage | Beh::GarbageReply => a.act_after_ms,
+                Beh::Reset | Beh::Http404 | Beh::Garbage | Beh::GarbageReply | Beh::TlsCut | Beh::TlsReset => a.act_after_ms,
                 Beh::Stall | Beh::TlsStall => Some(a.accept_ms + sc.hs_ms as f64),
                 _ => None,
             };
@@ -1370,14 +1452,15 @@ fn judge_script(ex: &mut Exec, steps: &[Step]) {
         }
         let q = ex.quiet.iter().find(|q| q.after_attempt == j).cloned();
         let anchors = match b {
-            Beh::Reset | Beh::Close0 | Beh::Close300 | Beh::CloseHold | Beh::Drop => a.act_before_ms.map(|lo| (lo, a.act_after_ms)),
+            // (`tls-cut` / `tls-reset`: `act_before_ms` is taken after the ClientHello was read, before the cut)
+            Beh::Reset | Beh::Close0 | Beh::Close300 | Beh::CloseHold | Beh::Drop | Beh::TlsCut | Beh::TlsReset => a.act_before_ms.map(|lo| (lo, a.act_after_ms)),
             // the handshake timer started no earlier than `lb` and no later than the accept
             Beh::Stall | Beh::TlsStall => Some((lb + sc.hs_ms as f64, noticed_by(&sc, a))),
             // C16: no earlier than T after the last Pong (sent not before `pong_before_ms`; the client's
             // clock starts when its multiplexor is created, after the server accepted), no later than T + I
             Beh::Silent => Some((a.pong_before_ms.unwrap_or(a.accept_ms) + ka_t as f64, noticed_by(&sc, a))),
             Beh::Mute => ex.mute_req_lo.get(&j).map(|lo| (lo + CH_TIMEOUT_MS as f64, a.first_bin_ms.map(|t| t + CH_TIMEOUT_MS as f64))),
-            Beh::Http404 | Beh::Healthy | Beh::Garbage | Beh::GarbageReply => None,
+            Beh::Http404 | Beh::Healthy | Beh::TlsHealthy | Beh::Garbage | Beh::GarbageReply => None,
         };
         let Some((lo, up)) = anchors else { break };
         prev = Some((lo, up, steps[j], b, q));
@@ -1612,9 +1695,9 @@ fn replay(args: &Args, v: &Value, mut rep: Report) -> Report {
 #[allow(clippy::too_many_lines)]
 pub fn run(args: &Args) -> Report {
     let mut rep = Report::new("C19", &args.tier, "e2e", "exploration");
-    rep.rule = "one execution of the real client_main_inner per point of the scenario matrix (server-behaviour script x max_retry_count x max_retry_interval x local-connection placement; for the silent-server scripts x keepalive interval/timeout or keepalive off; for the stalled-TLS-handshake scripts wss:// x handshake timeout; for the invalid-frame scripts the bad message unprompted or in answer to a pending stream request), every point executed; a point is non-trivial/distinct when its scenario record is distinct; a finding counts only when a scenario that showed it in the parallel pass shows it again when run alone on the machine (one scenario per key is re-run, smallest first)".into();
+    rep.rule = "one execution of the real client_main_inner per point of the scenario matrix (server-behaviour script x max_retry_count x max_retry_interval x local-connection placement; for the silent-server scripts x keepalive interval/timeout or keepalive off; for the stalled-TLS-handshake scripts wss:// x handshake timeout; for the cut-TLS-handshake scripts wss:// x cut by FIN or by TCP reset x ending by give-up, open-ended or at a healthy wss:// server; for the invalid-frame scripts the bad message unprompted or in answer to a pending stream request), every point executed; a point is non-trivial/distinct when its scenario record is distinct; a finding counts only when a scenario that showed it in the parallel pass shows it again when run alone on the machine (one scenario per key is re-run, smallest first)".into();
     std::panic::set_hook(Box::new(|_| {}));
-    // family F makes the client build a TLS configuration (no TLS handshake is ever completed)
+    // families F and K make the client build a TLS configuration (only `tls-healthy` completes a TLS handshake)
     rusty_penguin_lib::tls::init_crypto_provider();
     if let Some(v) = args.replay_json() {
         return replay(args, &v, rep);
@@ -1666,7 +1749,7 @@ pub fn run(args: &Args) -> Report {
         }
     }
     for v in suspects.values_mut() {
-        v.sort_by_key(|&i| (execs[i].sc.script.len(), execs[i].sc.script.last() != Some(&Beh::Healthy), execs[i].sc.estimate_ms(), i));
+        v.sort_by_key(|&i| (execs[i].sc.script.len(), !execs[i].sc.script.last().is_some_and(|b| b.healthy()), execs[i].sc.estimate_ms(), i));
     }
     let mut confirmed: BTreeMap<String, (usize, Exec)> = BTreeMap::new();
     let mut refuted: Vec<Value> = Vec::new();
@@ -1718,7 +1801,7 @@ pub fn run(args: &Args) -> Report {
     rep.bounds.insert("scenarios".into(), json!(matrix.len()));
     rep.bounds.insert("scenarios_per_family".into(), json!(fam));
     rep.bounds.insert("script_len_max".into(), json!({"families_A_B": bounds.len, "give_up_by_preconnect_failures_only": bounds.len + 1, "family_C": if thorough { 5 } else { 4 }}));
-    rep.bounds.insert("behaviours".into(), json!(["reset", "stall", "http404", "close0", "close300", "drop", "mute", "healthy", "silent (family E)", "tls-stall (family F)", "close-hold (family G)", "garbage, garbage-reply (family H)", "(really refusing port: family D)"]));
+    rep.bounds.insert("behaviours".into(), json!(["reset", "stall", "http404", "close0", "close300", "drop", "mute", "healthy", "silent (family E)", "tls-stall (family F)", "close-hold (family G)", "garbage, garbage-reply (family H)", "tls-cut, tls-reset, tls-healthy (family K)", "(really refusing port: family D)"]));
     rep.bounds.insert("max_retry_count".into(), json!(bounds.counts));
     rep.bounds.insert("max_retry_interval_ms".into(), json!(bounds.caps));
     rep.bounds.insert("handshake_timeout_ms".into(), json!(matrix.iter().map(|s| s.hs_ms).collect::<std::collections::BTreeSet<_>>()));
@@ -1726,6 +1809,17 @@ pub fn run(args: &Args) -> Report {
     rep.bounds.insert("silent_server_answers_pings".into(), json!(format!("until {} Pongs are written or {} ms after the handshake", net::SILENT_PONGS, net::SILENT_ANSWERS_FOR.as_millis())));
     rep.bounds.insert("families_E_F_tolerance_ms".into(), json!({"below_earliest_due_time": WIDE_TOL_LO_MS, "above_latest_due_time": WIDE_TOL_UP_MS, "never_came_after_latest_due_time_plus": HANG_EXTRA_MS}));
     rep.bounds.insert("family_H_invalid_frame".into(), json!({"message": format!("one binary message of {} octets 0xff after the WebSocket handshake", net::GARBAGE.len()), "variants": ["garbage: unprompted, no stream request pending (control)", "garbage-reply: in answer to the client's first binary message (the Connect of a local connection)"], "max_retry_count": matrix.iter().filter(|s| s.family == "H-invalid-frame").map(|s| s.n).collect::<std::collections::BTreeSet<_>>(), "further_connections": "the same behaviour again", "client_that_comes_back_is_watched_for_ms_at_most": GARBAGE_WATCH_MS}));
+    rep.bounds.insert(
+        "family_K_tls_handshake_cut".into(),
+        json!({
+            "server": "wss:// URL with --tls-skip-verify; the server reads the client's first TLS record (the ClientHello) completely, then closes the connection without writing anything",
+            "variants": ["tls-cut: orderly close (FIN)", "tls-reset: SO_LINGER 0 (TCP reset)", "tls-healthy: TLS handshake with a self-signed certificate, WebSocket handshake, echoing multiplexor"],
+            "max_retry_count": matrix.iter().filter(|s| s.family == "K-tls-handshake-cut").map(|s| s.n).collect::<std::collections::BTreeSet<_>>(),
+            "cuts_in_a_row_max": matrix.iter().filter(|s| s.family == "K-tls-handshake-cut").map(|s| s.script.iter().filter(|b| matches!(b, Beh::TlsCut | Beh::TlsReset)).count()).max(),
+            "handshake_timeout_ms": TLS_CUT_HS_TIMEOUT_MS,
+            "open_ended_scripts_watch_the_client_after_the_last_cut_for_ms": OPEN_END_WATCH_MS,
+        }),
+    );
     rep.bounds.insert("channel_timeout_ms".into(), json!(CH_TIMEOUT_MS));
     rep.bounds.insert("parallel_scenarios".into(), json!(par));
     rep.bounds.insert("deadline_ms".into(), json!(LONG_WAIT_MS));
@@ -1770,6 +1864,19 @@ pub fn run(args: &Args) -> Report {
     rep.extra.insert("invalid_frames_sent_unprompted".into(), json!(bad_sent));
     rep.extra.insert("invalid_frames_sent_in_answer_to_a_stream_request".into(), json!(bad_replies));
     rep.extra.insert("clients_ended_by_invalid_frame".into(), json!({"all": n_inv, "with_a_stream_request_pending": inv_pending}));
+    // family K
+    let in_k = |e: &&Exec| e.sc.family == "K-tls-handshake-cut";
+    let cut_hellos = |b: Beh| execs.iter().flat_map(|e| &e.attempts).filter(|a| a.beh == Some(b) && a.first_byte == Some(0x16) && a.hello_len.is_some_and(|n| n > 5) && a.act_after_ms.is_some()).count();
+    let (hellos_fin, hellos_rst) = (cut_hellos(Beh::TlsCut), cut_hellos(Beh::TlsReset));
+    let k_retries = execs.iter().filter(in_k).map(|e| e.attempts.iter().zip(e.attempts.iter().skip(1)).filter(|(a, _)| matches!(a.beh, Some(Beh::TlsCut | Beh::TlsReset))).count()).sum::<usize>();
+    let k_giveups = execs.iter().filter(in_k).filter(|e| e.completed && e.client_end_at_finish.as_ref().is_some_and(|c| c.class == "max-retry")).count();
+    let k_open = execs.iter().filter(in_k).filter(|e| e.sc.open_end && e.completed && e.client_end_at_finish.is_none() && e.attempts.len() >= e.sc.script.len()).count();
+    let k_served = execs.iter().filter(in_k).filter(|e| e.sc.script.len() > 1 && e.completed && e.client_end_at_finish.is_none() && e.attempts.last().is_some_and(|a| a.beh == Some(Beh::TlsHealthy) && a.hs_done_ms.is_some()) && e.locals.iter().any(|l| matches!(l.result, Some(LocalRes::Echo { .. })))).count();
+    let k_last_errors: std::collections::BTreeSet<String> = execs.iter().filter(in_k).filter_map(|e| e.client_end_at_finish.as_ref().map(|c| format!("{} after {}: {}", c.class, e.attempts.last().and_then(|a| a.beh).map_or("-", Beh::name), c.text))).collect();
+    rep.extra.insert(
+        "tls_handshakes_cut".into(),
+        json!({"client_hellos_read_then_closed_with_fin": hellos_fin, "client_hellos_read_then_reset": hellos_rst, "attempts_that_followed_a_cut": k_retries, "give_ups_after_cuts": k_giveups, "open_ended_scripts_with_the_client_still_running": k_open, "scripts_served_by_the_healthy_wss_server_after_cuts": k_served, "client_results": k_last_errors}),
+    );
     rep.extra.insert("suspicions".into(), json!(suspects.iter().map(|(k, v)| (k.clone(), v.len())).collect::<BTreeMap<_, _>>()));
     rep.extra.insert("suspicions_confirmed_alone".into(), json!(confirmed.keys().collect::<Vec<_>>()));
     rep.extra.insert("suspicions_not_reproduced_alone".into(), json!(refuted.len()));
@@ -1779,7 +1886,7 @@ pub fn run(args: &Args) -> Report {
     for (_, (_, iso)) in confirmed.iter().take(2) {
         rep.sample(iso.observation());
     }
-    for want in ["H-invalid-frame", "G-close-hold", "E-keepalive", "F-tls-handshake", "C-reset-after-success", "B-pending-local", "A-counts-delays", "D-refused"] {
+    for want in ["K-tls-handshake-cut", "H-invalid-frame", "G-close-hold", "E-keepalive", "F-tls-handshake", "C-reset-after-success", "B-pending-local", "A-counts-delays", "D-refused"] {
         if let Some(e) = execs.iter().find(|e| e.sc.family == want && e.findings.is_empty() && e.machinery.is_none()) {
             rep.sample(e.observation());
         }
@@ -1790,6 +1897,7 @@ pub fn run(args: &Args) -> Report {
     rep.assumptions.push("handshake_timeout = channel_timeout = 1 s, keepalive off, ws:// (families A-D), one TCP remote on 127.0.0.1; the back-off generator itself is checked exhaustively by the vmux half of C19".into());
     rep.assumptions.push(format!("families E (silent server; keepalive on/off) and F (wss:// with --tls-skip-verify, the server never speaks TLS; handshake timeout {TLS_HS_TIMEOUT_MS} ms in the quick tier) run in real time: an attempt counts as too early only {WIDE_TOL_LO_MS} ms before its earliest due time (last Pong + T + delay / earliest start + handshake timeout + delay), as too late only {WIDE_TOL_UP_MS} ms after its latest due time (last Pong + T + I + delay / accept + handshake timeout + delay), as never coming {HANG_EXTRA_MS} ms after the latter"));
 
+    rep.assumptions.push(format!("family K (wss:// with --tls-skip-verify): the cut comes after the server has read the whole ClientHello record and before it has written anything; the lower bound of the gap after a cut is anchored at a timestamp the server took between the two (tolerance {TOL_MS} ms), the upper bound and everything else are those of `reset`; the handshake timeout is {TLS_CUT_HS_TIMEOUT_MS} ms so that it does not fire first; the healthy wss:// server presents a self-signed certificate for 127.0.0.1"));
     rep.assumptions.push(format!("family H: the non-retryable error after the handshake is penguin_mux::Error::InvalidFrame, caused by one binary message of {} octets 0xff; the server keeps the TCP connection open and plays the same on every further connection; 'at once' is judged as for http404 (the client ends within 1 s of the bad message, and no further connection attempt is made)", net::GARBAGE.len()));
 
     // ---- vacuity guard
@@ -1806,6 +1914,10 @@ pub fn run(args: &Args) -> Report {
         rep.machinery_error = Some(format!("degenerate run: invalid frames sent unprompted {bad_sent}, in answer to a stream request {bad_replies} -- each must be > 0"));
     } else if confirmed.is_empty() && (n_inv == 0 || inv_pending == 0) {
         rep.machinery_error = Some(format!("degenerate run: clients ended by the invalid frame {n_inv}, of these with a stream request pending {inv_pending} -- each must be > 0 when nothing was found"));
+    } else if hellos_fin == 0 || hellos_rst == 0 {
+        rep.machinery_error = Some(format!("degenerate run: TLS ClientHellos (first octet 0x16) read before a cut by FIN {hellos_fin}, before a cut by reset {hellos_rst} -- each must be > 0"));
+    } else if confirmed.is_empty() && (k_retries == 0 || k_giveups == 0 || k_open == 0 || k_served == 0) {
+        rep.machinery_error = Some(format!("degenerate run: attempts that followed a cut TLS handshake {k_retries}, give-ups after cuts {k_giveups}, open-ended scripts that left the client running {k_open}, scripts served by the healthy wss:// server after cuts {k_served} -- each must be > 0 when nothing was found"));
     } else if confirmed.is_empty() && (ka_gaps.is_empty() || tls_gaps.is_empty() || pongs == 0 || hellos == 0 || ka_controls == 0) {
         rep.machinery_error = Some(format!("degenerate run: reconnects after a silent server {}, Pongs sent by silent servers {pongs}, retries after a stalled TLS handshake {}, TLS ClientHellos seen {hellos}, keepalive-off controls that stayed connected {ka_controls} -- each must be > 0 when nothing was found", ka_gaps.len(), tls_gaps.len()));
     }
